@@ -106,6 +106,9 @@ def setA {α : Type} (l : List α) (i : Int) (v : α) : Option (List α) :=
 /-- `xs[:n]` (only up to the length: Go allows up to the capacity) -/
 def takeA {α : Type} (l : List α) (n : Int) : Option (List α) :=
   if 0 ≤ n ∧ n ≤ l.length then some (l.take n.toNat) else none
+/-- `xs[lo:hi]` (only up to the length: Go allows `hi` up to the capacity) -/
+def sliceA {α : Type} (l : List α) (lo hi : Int) : Option (List α) :=
+  if 0 ≤ lo ∧ lo ≤ hi ∧ hi ≤ l.length then some ((l.drop lo.toNat).take (hi - lo).toNat) else none
 /-- `xs[n:]` -/
 def dropA {α : Type} (l : List α) (n : Int) : Option (List α) :=
   if 0 ≤ n ∧ n ≤ l.length then some (l.drop n.toNat) else none
